@@ -19,6 +19,7 @@ PATTERNS = []
 
 def norm(n):
     n = n.replace("wasm_bindgen::__rt::core::", "core::").replace("wasm_bindgen::__rt::alloc::", "alloc::")
+    n = re.sub(r"\b\w+::_::_serde::", "serde::", n)
     n = re.sub(r"\b(core|alloc)::", "std::", n)
     return n
 
@@ -325,7 +326,7 @@ def m_try_into(eng, call, args):
     dst = subs[1][0] if len(subs) > 1 else ""
     a = args[0]
     m = re.match(r"^\[(\w+); (\d+)\]$", dst)
-    if m and ("[" in src):
+    if m and ("[" in src or "Vec<" in src):
         # &[T] / Vec<T> -> [T; N]: Ok iff len == N
         n = int(m.group(2))
         v = val(eng, call, a) if a.op in ("ref", "refv", "refo", "phi") else a
@@ -1267,3 +1268,14 @@ def m_box_into_vec(eng, call, args):
         if v is not None:
             return v
     return mk("ext", "box_into_vec", b)
+
+
+@model("serde::Serializer::serialize_str")
+def m_serialize_str(eng, call, args):
+    v = val(eng, call, args[1]) if args[1].op in ("ref", "refv", "refo") else args[1]
+    return mk("serde_str", v)
+
+
+@model("serde::de::Error::custom", "serde::ser::Error::custom")
+def m_serde_custom(eng, call, args):
+    return mk("serde_error", *args)
